@@ -110,8 +110,9 @@ func (r *REPL) Run(line string) error {
 	if err != nil {
 		// Detect that we should start a continuation line
 		if needsMoreInput(err) {
+			// a comment or a whitespace-only line is not the start of a statement
 			stripped := strings.TrimSpace(toCompile)
-			isComment := len(stripped) > 0 && stripped[0] == '#'
+			isComment := len(stripped) == 0 || stripped[0] == '#'
 			if !isComment {
 				r.continuation = true
 				r.previous += string(line) + "\n"
